@@ -6,6 +6,8 @@
   `hu : t.tipNames.Nodup` is the hypothesis "tip names are unique".
 -/
 import Gotree.Lemmas.C14
+import Gotree.Lemmas.C14R2
+import Gotree.Lemmas.C14Avg
 
 namespace Gotree.C14
 open Gotree
@@ -180,5 +182,172 @@ theorem cutOK_holds (thr : Rat) (t : T) (hu : t.tipNames.Nodup) :
     | nil => exact absurd rfl ((cut_partition thr t).2 _ hg)
     | cons x g => rfl
   · exact cut_components thr t hu a b ha hb
+
+/-! ## Round 2: invariances, monotonicity, more on the average
+
+  `C05.moveRoot t i` is the one-edge root move of C05's model (`Reroot` is a sequence of
+  them); `Reord t t'` says `t'` is `t` with the children of any nodes, at any depth, listed in
+  another order (and any parent positions). -/
+
+/-- a non-trivial reordering: the two cherries of `exT` swapped at the root and inside -/
+def exTReord : T :=
+  .node ⟨"", []⟩ 0 [
+    (mkE 1 4, T.leaf "D"),
+    (mkE (1/2) 0, .node ⟨"", []⟩ 1 [(mkE 2 2, T.leaf "B"), (mkE 1 1, T.leaf "A")]),
+    (mkE 3 3, T.leaf "C")]
+
+/-- the hypothesis of the two `_reorder` theorems is satisfiable on a non-trivial pair -/
+example : Reord exT exTReord := by
+  unfold exT exTReord
+  refine Reord.node _ 0 0 (k₂ := [
+    (mkE (1/2) 0, .node ⟨"", []⟩ 1 [(mkE 2 2, T.leaf "B"), (mkE 1 1, T.leaf "A")]),
+    (mkE 3 3, T.leaf "C"), (mkE 1 4, T.leaf "D")]) ?_ ?_
+  · refine .cons _ ?_ (.cons _ ?_ (.cons _ ?_ .nil))
+    · exact Reord.node _ 0 1 (k₂ := [(mkE 1 1, T.leaf "A"), (mkE 2 2, T.leaf "B")])
+        (.cons _ (Reord.node _ 0 0 .nil (List.Perm.refl _)) (.cons _ (Reord.node _ 0 0 .nil (List.Perm.refl _)) .nil))
+        (List.Perm.swap _ _ _)
+    · exact Reord.node _ 0 0 .nil (List.Perm.refl _)
+    · exact Reord.node _ 0 0 .nil (List.Perm.refl _)
+  · exact (List.perm_append_comm (l₁ := [_]) (l₂ := [_, _]))
+
+/-- The matrix does not depend on where the root is: a one-edge root move (hence any
+    re-rooting, a sequence of them) leaves names, row order and every entry unchanged. -/
+theorem matrix_moveRoot (m : Metric) (t : T) (i : Nat) (hu : t.tipNames.Nodup) :
+    matrix m (C05.moveRoot t i) = matrix m t :=
+  matrix_moveRoot' m t i hu
+
+/- the hypothesis is satisfiable where the root really moves, onto a tip even -/
+example : (C05.moveRoot exT 0).tipNames = ["C", "D", "A", "B"] ∧ (C05.moveRoot exT 0).kids.length = 3 := by decide
+example : (C05.moveRoot exT 2).tipNames = ["D", "A", "B", "C"] ∧ (C05.moveRoot exT 2).kids.length = 1 := by decide
+
+/-- The matrix does not depend on the order of the children, at any depth. -/
+theorem matrix_reorder (m : Metric) {t t' : T} (h : Reord t t') (hu : t.tipNames.Nodup) :
+    matrix m t' = matrix m t :=
+  matrix_congr m t t' hu (reord_tipNames h) (fun a _ b _ => distW_sameBranches m.w (reord_splits h) a b)
+
+/-- The bags do not depend on where the root is: the same pairs of tips share a bag, and the
+    bags cover the same tips. -/
+theorem cut_moveRoot (thr : Rat) (t : T) (i : Nat) (hu : t.tipNames.Nodup) :
+    (∀ a ∈ t.tipNames, ∀ b ∈ t.tipNames,
+      sameBag (cut thr (C05.moveRoot t i)) a b = sameBag (cut thr t) a b) ∧
+    (cut thr (C05.moveRoot t i)).flatten.Perm (cut thr t).flatten :=
+  ⟨fun a ha b hb => cut_sameBag_moveRoot thr t i hu a b ha hb,
+   (cut_perm thr _).trans ((C05.moveRoot_tips t i).trans (cut_perm thr t).symm)⟩
+
+/-- The bags do not depend on the order of the children either. -/
+theorem cut_reorder (thr : Rat) {t t' : T} (h : Reord t t') (hu : t.tipNames.Nodup) :
+    (∀ a ∈ t.tipNames, ∀ b ∈ t.tipNames, sameBag (cut thr t') a b = sameBag (cut thr t) a b) ∧
+    (cut thr t').flatten.Perm (cut thr t).flatten := by
+  have hp := reord_tipNames h
+  refine ⟨fun a ha b hb => ?_, (cut_perm thr _).trans (hp.trans (cut_perm thr t).symm)⟩
+  rw [cut_sameBag thr t' (hp.nodup_iff.2 hu) a b (hp.mem_iff.2 ha) (hp.mem_iff.2 hb),
+    cut_sameBag thr t hu a b ha hb, pathShort_sameBranches thr (reord_splits h)]
+
+/-- Threshold monotonicity: every bag for a threshold lies inside one bag for any larger
+    threshold (so the bags for the larger one are unions of bags for the smaller one). -/
+theorem cut_threshold_mono (thr thr' : Rat) (hle : thr ≤ thr') (t : T) (hu : t.tipNames.Nodup) :
+    ∀ g ∈ cut thr t, ∃ g' ∈ cut thr' t, ∀ x ∈ g, x ∈ g' :=
+  cut_refines thr thr' hle t hu
+
+example : cut 2 exT = [["A", "D"], ["B"], ["C"]] ∧ cut (5/2) exT = [["A", "B", "D"], ["C"]] := by decide +kernel
+
+/-- The average of one tree is its matrix. -/
+theorem avg_one (m : Metric) (t : T) : avgMatrix m [t] = some (matrix m t) := avg_one' m t
+
+/-- The average does not depend on the order in which the trees arrive: neither whether it
+    is rejected nor, when it is accepted, the names or any entry. -/
+theorem avg_perm (m : Metric) {ts ts' : List T} (hp : ts'.Perm ts) : avgMatrix m ts' = avgMatrix m ts := by
+  by_cases hne : ts = []
+  · subst hne; rw [hp.eq_nil]
+  have hne' : ts' ≠ [] := fun e => hne (by rw [e] at hp; exact hp.symm.eq_nil)
+  cases h : avgMatrix m ts with
+  | none =>
+    obtain ⟨_, u, hu, hdiff⟩ := (avg_different_taxa_err m ts).1 h
+    rw [avg_different_taxa_err]
+    by_cases hc : sortNames u.tipNames = sortNames (ts'.head hne').tipNames
+    · refine ⟨hne', ts.head hne, hp.mem_iff.2 (List.head_mem hne), fun e => hdiff ?_⟩
+      exact hc.trans e.symm
+    · exact ⟨hne', u, hp.mem_iff.2 hu, hc⟩
+  | some r =>
+    obtain ⟨names, M⟩ := r
+    obtain ⟨_, hall, hl, hr, hent⟩ := avg_is_mean m ts hne names M h
+    cases h' : avgMatrix m ts' with
+    | none =>
+      obtain ⟨_, u, hu, hdiff⟩ := (avg_different_taxa_err m ts').1 h'
+      exact absurd ((hall u (hp.mem_iff.1 hu)).trans
+        (hall _ (hp.mem_iff.1 (List.head_mem hne'))).symm) hdiff
+    | some r' =>
+      obtain ⟨names', M'⟩ := r'
+      obtain ⟨hn', _, hl', hr', hent'⟩ := avg_is_mean m ts' hne' names' M' h'
+      have e1 : names' = names := hn'.trans (hall _ (hp.mem_iff.1 (List.head_mem hne')))
+      subst e1
+      have e2 : M' = M := by
+        refine square_ext (square_of_lengths hl' hr') (square_of_lengths hl hr) (fun i j => ?_)
+        rw [hent' i j, hent i j, hp.length_eq, sum_perm (hp.map _)]
+      rw [e2]
+
+/-- The literal name check of `AvgDistanceMatrix` (`for i, tip := range tips { tip.Name() !=
+    tips2[i].Name() }`) passes iff the first tree's sorted names are a prefix of the later
+    tree's, and indexes out of range (a Go panic) iff the later tree's names run out first.
+    With equally many tips: passes iff the names are equal, never panics. -/
+theorem avgCheck_outcome (tips tips2 : List String) :
+    ((∃ u, Go.checkNames tips 0 tips2 = .ok u) ↔ tips <+: tips2) ∧
+    ((∃ msg, Go.checkNames tips 0 tips2 = .panic msg) ↔ (tips2 <+: tips ∧ tips2.length < tips.length)) ∧
+    (tips.length = tips2.length →
+      ((∃ u, Go.checkNames tips 0 tips2 = .ok u) ↔ tips = tips2) ∧ ¬ ∃ msg, Go.checkNames tips 0 tips2 = .panic msg) := by
+  have h1 := checkNames_ok_iff tips 0 tips2
+  have h2 := checkNames_panic_iff tips 0 tips2
+  simp only [List.drop_zero] at h1 h2
+  refine ⟨h1, h2, fun hl => ⟨h1.trans ⟨fun hp => hp.eq_of_length hl, fun e => e ▸ List.prefix_refl _⟩, ?_⟩⟩
+  rw [h2]
+  intro ⟨_, hlt⟩
+  omega
+
+/-- The literal loops of `AvgDistanceMatrix` (statement-level model: the `len(tips2) !=
+    len(tips)` test, the name check against the FIRST tree, `matrix[i][j] += matrix2[i][j]`,
+    the final division over `range tips × range tips2`) return exactly what `avgMatrix`
+    returns — so `avg_is_mean`, `avg_one`, `avg_perm` are statements about them — and the error
+    exactly when `avgMatrix` rejects, never a panic; provided the statement-level matrix of each
+    tree is the rose-tree one (checked by the driver on every case). -/
+theorem avgGo_is_avg (metric : Int) (m : Metric) (ts : List T)
+    (hgo : ∀ t ∈ ts, Go.matrixGo metric t = some (matrix m t)) :
+    Go.avgDistanceMatrix metric ts =
+      match avgMatrix m ts with
+      | some r => .ok r
+      | none => .err avgMsg :=
+  avgGo_eq metric m ts hgo
+
+/-- three tips / the first two of them -/
+def exAbc : T := .node ⟨"", []⟩ 0 [(mkE 1 0, T.leaf "a"), (mkE 2 1, T.leaf "b"), (mkE 3 2, T.leaf "c")]
+def exAb : T := .node ⟨"", []⟩ 0 [(mkE 1 0, T.leaf "a"), (mkE 2 1, T.leaf "b")]
+
+/- the hypothesis of `avgGo_is_avg` holds on these (kernel-evaluated through both models is not
+   possible: `matrix` sorts by well-founded `mergeSort`; the statement-level side is) -/
+example : Go.matrixGo 0 exAb = some (["a", "b"], [[0, 3], [3, 0]]) := by decide +kernel
+example : Go.avgDistanceMatrix 0 [exAb, exAb] = .ok (["a", "b"], [[0, 3], [3, 0]]) := by decide +kernel
+
+/-- Regression witness for fix 55aaa9d (found in round 2): WITHOUT the test `len(tips2) !=
+    len(tips)` (model variant `avgDistanceMatrixPinned`) the average of trees with another
+    number of tips, the shorter sorted name list a prefix of the longer, indexes out of range
+    in the name check (later tree shorter) or in the addition (later tree longer); with it,
+    the outcome is the error. -/
+theorem avg_pinned_fails :
+    Go.avgDistanceMatrixPinned 0 [exAbc, exAb] = .panic (Go.oob 2 2) ∧
+    Go.avgDistanceMatrixPinned 0 [exAb, exAbc] = .panic (Go.oob 2 2) ∧
+    Go.avgDistanceMatrix 0 [exAbc, exAb] = .err avgMsg ∧
+    Go.avgDistanceMatrix 0 [exAb, exAbc] = .err avgMsg := by decide +kernel
+
+/- the statement-level (pointer graph) model on `exTipRoot` (root on the tip D; nodes in
+   pre-order D=0, inner=1, inner=2, A=3, B=4, C=5), kernel-evaluated: `Tips()` lists the root
+   first; the walk from A with ids by name order A,B,C,D writes the path sums of `exT`; the
+   flood fill at threshold 2 puts the root tip D with A.  The driver checks the agreement of
+   the two models with the code on every case. -/
+example : Go.G.tips (Go.G.ofT exTipRoot) = [0, 3, 4, 5] := by decide +kernel
+example : (Go.pathLengths (Go.G.ofT exTipRoot) #[3, 0, 0, 0, 1, 2] 0 7 3 none (Array.replicate 4 0) 0).map Array.toList
+    = some [0, 3, 9/2, 5/2] := by decide +kernel
+example : (row Metric.brlen.w exTipRoot "A").lookup "B" = some 3 ∧ (row Metric.brlen.w exTipRoot "A").lookup "C" = some (9/2) ∧
+    (row Metric.brlen.w exTipRoot "A").lookup "D" = some (5/2) := by decide +kernel
+example : (match Go.cutEdgesMaxLength (Go.G.ofT exTipRoot) 2 with | .ok b => b | _ => []) =
+    [[("D", 0), ("A", 3)], [("B", 4)], [("C", 5)]] := by decide +kernel
 
 end Gotree.C14
